@@ -36,6 +36,7 @@ CONSTANTS
   MaxSess,      \* attachment sessions per client
   MaxCompact,   \* compactions
   MaxUndo,      \* undo/redo calls per client
+  BuildBack,    \* Build(n) rebuilds the document at head-n for n in 0..BuildBack
   SyncWeight    \* simulation only: how many times the Sync disjunct is replicated (TLC's
                 \* simulator picks uniformly among generated successors; a large
                 \* alphabet would otherwise starve syncs). No effect on the state graph.
@@ -298,7 +299,7 @@ Next ==
        \/ Detach(c) \/ Remove(c) \/ Deactivate(c) \/ Undo(c) \/ Redo(c)
   \/ Setup
   \/ Compact(FALSE) \/ Compact(TRUE)
-  \/ \E n \in 0..1 : Build(n)
+  \/ \E n \in 0..BuildBack : Build(n)
   \/ Evict
   \/ Finish
 
